@@ -36,22 +36,28 @@ Theorem C08_agree_gauss : forall n h,
 Proof. exact agree_gauss. Qed.
 Print Assumptions C08_agree_gauss.
 
-(* bosonic circuit: only for histories whose New create one mode at a time (see the _refuted below) *)
-Theorem C08_agree_bos_partial : forall n h, forallb new_le1 h = true ->
+Theorem C08_agree_bos : forall n h,
   prog_register (fst (bos_run n h)) = slives (spec_run n h) /\
   ps_modes (snd (bos_run n h)) = slives (spec_run n h).
 Proof. exact agree_bos. Qed.
-Print Assumptions C08_agree_bos_partial.
+Print Assumptions C08_agree_bos.
 
-Theorem C08_agree_bos_refuted : exists n h,
-  ps_modes (snd (bos_run n h)) <> slives (spec_run n h) /\ prog_register (fst (bos_run n h)) = slives (spec_run n h).
-Proof. exact bos_agree_refuted. Qed.
-Print Assumptions C08_agree_bos_refuted.
+(* behaviour before /repo 6125c3c (bos_step_old: one `active` entry for n new modes) *)
+Theorem C08_agree_bos_old_partial : forall n h, forallb new_le1 h = true ->
+  prog_register (fst (bos_run_old n h)) = slives (spec_run n h) /\
+  ps_modes (snd (bos_run_old n h)) = slives (spec_run n h).
+Proof. exact agree_bos_old. Qed.
+Print Assumptions C08_agree_bos_old_partial.
 
-Theorem C08_accept_bos_refuted : exists n h o s',
-  sstep (spec_run n h) o = Some s' /\ snd (pstep ps bos_step (bos_run n h) o) = Err IndexError.
-Proof. exact bos_accept_refuted. Qed.
-Print Assumptions C08_accept_bos_refuted.
+Theorem C08_agree_bos_old_refuted : exists n h,
+  ps_modes (snd (bos_run_old n h)) <> slives (spec_run n h) /\ prog_register (fst (bos_run_old n h)) = slives (spec_run n h).
+Proof. exact bos_agree_old_refuted. Qed.
+Print Assumptions C08_agree_bos_old_refuted.
+
+Theorem C08_accept_bos_old_refuted : exists n h o s',
+  sstep (spec_run n h) o = Some s' /\ snd (pstep ps bos_step_old (bos_run_old n h) o) = Err IndexError.
+Proof. exact bos_accept_old_refuted. Qed.
+Print Assumptions C08_accept_bos_old_refuted.
 
 (* --- deleted / unknown / repeated modes are rejected with an error and nothing changes;
        everything else is accepted without error by both sides *)
@@ -75,10 +81,15 @@ Theorem C08_accept_gauss : forall n h o s', sstep (spec_run n h) o = Some s' ->
 Proof. exact accept_gauss. Qed.
 Print Assumptions C08_accept_gauss.
 
-Theorem C08_reject_bos_partial : forall n h o, forallb new_le1 h = true -> sstep (spec_run n h) o = None ->
+Theorem C08_reject_bos : forall n h o, sstep (spec_run n h) o = None ->
   exists e, pstep ps bos_step (bos_run n h) o = (bos_run n h, Err e).
 Proof. exact reject_bos. Qed.
-Print Assumptions C08_reject_bos_partial.
+Print Assumptions C08_reject_bos.
+
+Theorem C08_accept_bos : forall n h o s', sstep (spec_run n h) o = Some s' ->
+  pstep ps bos_step (bos_run n h) o = (bos_run n (h ++ [o]), Ok).
+Proof. exact accept_bos. Qed.
+Print Assumptions C08_accept_bos.
 
 (* --- the Fock ModeMap restricted to the live indices is the order isomorphism onto [0, #live)
        and the tensor has exactly #live axes, after any interleaving of alloc / dealloc *)
@@ -98,33 +109,31 @@ Theorem C08_state_content_fock : forall n h, fock_state (snd (fock_run n h)) = v
 Proof. exact state_fock. Qed.
 Print Assumptions C08_state_content_fock.
 
-(* Gaussian state(): right while no live index sits behind a dead one, in particular without Del *)
-Theorem C08_state_content_gauss_partial : forall n h,
-  prefix_live (spec_run n h) -> gauss_state (snd (gauss_run n h)) = view (spec_run n h).
-Proof. exact state_gauss_prefix. Qed.
-Print Assumptions C08_state_content_gauss_partial.
+Theorem C08_state_content_gauss : forall n h, gauss_state (snd (gauss_run n h)) = view (spec_run n h).
+Proof. exact state_gauss. Qed.
+Print Assumptions C08_state_content_gauss.
 
-Theorem C08_state_content_gauss_no_del : forall n h,
-  forallb no_del h = true -> gauss_state (snd (gauss_run n h)) = view (spec_run n h).
-Proof. exact state_gauss_no_del. Qed.
-Print Assumptions C08_state_content_gauss_no_del.
-
-Theorem C08_state_content_gauss_refuted : exists n h,
-  gauss_state (snd (gauss_run n h)) <> view (spec_run n h)
-  /\ map fst (gauss_state (snd (gauss_run n h))) = map fst (view (spec_run n h)).
-Proof. exact gauss_state_refuted. Qed.
-Print Assumptions C08_state_content_gauss_refuted.
-
-(* with the slot selection repaired (read the slots named by get_modes(), as the bosonic backend does)
-   the Gaussian bookkeeping satisfies the full statement *)
-Theorem C08_state_content_gauss_repaired : forall n h, bos_state (snd (gauss_run n h)) = view (spec_run n h).
-Proof. exact state_gauss_repaired. Qed.
-Print Assumptions C08_state_content_gauss_repaired.
-
-Theorem C08_state_content_bos_partial : forall n h, forallb new_le1 h = true ->
-  bos_state (snd (bos_run n h)) = view (spec_run n h).
+Theorem C08_state_content_bos : forall n h, bos_state (snd (bos_run n h)) = view (spec_run n h).
 Proof. exact state_bos. Qed.
-Print Assumptions C08_state_content_bos_partial.
+Print Assumptions C08_state_content_bos.
+
+(* slot selection before /repo 23cb098 (gauss_state_old: slots range(#live)): right only while no live index
+   sits behind a dead one, in particular without Del *)
+Theorem C08_state_content_gauss_old_partial : forall n h,
+  prefix_live (spec_run n h) -> gauss_state_old (snd (gauss_run n h)) = view (spec_run n h).
+Proof. exact state_gauss_old_prefix. Qed.
+Print Assumptions C08_state_content_gauss_old_partial.
+
+Theorem C08_state_content_gauss_old_no_del : forall n h,
+  forallb no_del h = true -> gauss_state_old (snd (gauss_run n h)) = view (spec_run n h).
+Proof. exact state_gauss_old_no_del. Qed.
+Print Assumptions C08_state_content_gauss_old_no_del.
+
+Theorem C08_state_content_gauss_old_refuted : exists n h,
+  gauss_state_old (snd (gauss_run n h)) <> view (spec_run n h)
+  /\ map fst (gauss_state_old (snd (gauss_run n h))) = map fst (view (spec_run n h)).
+Proof. exact gauss_state_old_refuted. Qed.
+Print Assumptions C08_state_content_gauss_old_refuted.
 
 (* --- [view] means what the property says *)
 Theorem C08_view_exactly_live_own_data : forall s i d, In (i, d) (view s) <-> nth_error s i = Some (Some d).
